@@ -60,6 +60,23 @@ def decorate(behaviours, seed, sweep_every, thorough):
     return out
 
 
+def run_parallel(ctx, binary, payload, procs):
+    """Reopening images is dominated by the fsync of the tail repair: run several engine processes."""
+    from concurrent.futures import ThreadPoolExecutor
+    bs = payload["behaviours"]
+    chunks = [bs[i::procs] for i in range(procs) if bs[i::procs]]
+    with ThreadPoolExecutor(max_workers=len(chunks)) as ex:
+        results = list(ex.map(lambda c: ctx.run_engine(binary, "TestWalReplay", dict(payload, behaviours=c),
+                                                       timeout=3000), chunks))
+    total = {"stats": {}, "steps": 0}
+    for r in results:
+        ctx.absorb(r, "wal", "TestWalReplay")
+        total["steps"] += r.get("steps", 0)
+        for k, v in r.get("stats", {}).items():
+            total["stats"][k] = total["stats"].get(k, 0) + v
+    return total
+
+
 def run(ctx):
     binary, hook = build(ctx)
     if ctx.replay:
@@ -88,8 +105,7 @@ def run(ctx):
                                        seed=ctx.seed * 1000 + i, timeout=900)
     payload = {"interval": MODEL_INTERVAL,
                "behaviours": decorate(behaviours, ctx.seed, 4 if thorough else 12, thorough)}
-    res = ctx.run_engine(binary, "TestWalReplay", payload, timeout=3000)
-    ctx.absorb(res, "wal", "TestWalReplay")
+    res = run_parallel(ctx, binary, payload, int(os.environ.get("VERIF_ENGINE_PROCS", "6")))
     st = res.get("stats", {})
     for need in ("cleanups", "failed_flushes", "crashes", "sweeps", "images_reopened"):
         if not st.get(need):
